@@ -117,6 +117,23 @@ Definition is_builtin (n : tname) : bool := has_decl n builtins.        (* n in 
 Definition find_st (n : tname) (st : list stype) : option stype := find (fun t => String.eqb n (st_name t)) st.
 Definition find_sf (n : fname) (l : list sfeat) : option sfeat := find (fun f => String.eqb n (sf_name f)) l.
 
+(* ------------------------------------------------------------------ structural equality (for comparisons) *)
+Definition opt_str_eqb := opt_eqb.
+Definition fdecl_eqb (a b : fdecl) : bool :=
+  String.eqb (f_name a) (f_name b) && opt_eqb (f_descr a) (f_descr b) && String.eqb (f_range a) (f_range b)
+  && opt_eqb (f_elem a) (f_elem b) && optb_eqb (f_multi a) (f_multi b).
+Definition tdecl_eqb (a b : tdecl) : bool :=
+  String.eqb (t_name a) (t_name b) && opt_eqb (t_descr a) (t_descr b) && String.eqb (t_super a) (t_super b)
+  && list_eqb fdecl_eqb (t_feats a) (t_feats b).
+Definition sfeat_eqb (a b : sfeat) : bool :=
+  String.eqb (sf_name a) (sf_name b) && Bool.eqb (sf_res a) (sf_res b) && opt_eqb (sf_descr a) (sf_descr b)
+  && String.eqb (sf_range a) (sf_range b) && opt_eqb (sf_elem a) (sf_elem b) && optb_eqb (sf_multi a) (sf_multi b).
+Definition stype_eqb (a b : stype) : bool :=
+  String.eqb (st_name a) (st_name b) && opt_eqb (st_descr a) (st_descr b) && String.eqb (st_super a) (st_super b)
+  && list_eqb sfeat_eqb (st_feats a) (st_feats b).
+Definition tsys_eqb (a b : tsys) : bool :=
+  list_eqb stype_eqb (s_types a) (s_types b) && list_eqb String.eqb (s_redecl a) (s_redecl b).
+
 (* ------------------------------------------------------------------ writer: TypeSystemSerializer *)
 (* an element whose text is "" is read back as an element without text *)
 Definition emit_d (x : option string) : option string :=
@@ -134,10 +151,22 @@ Definition emit_redecl (s : tsys) (n : tname) : list tdecl :=
   | Some b => [b]
   | None => match find_st n (s_types s) with Some t => [emit_type t] | None => [] end
   end.
-(* serialize (after commit fa385f5): redeclared_type_names = _predefined_types, plus DocumentAnnotation when its own
-   feature names are not exactly ["language"]; these are written first, sorted; then every other user type,
-   sorted by full name; the second loop always skips DocumentAnnotation *)
+(* serialize (after commits fa385f5, b4a91fc): redeclared_type_names = _predefined_types, plus DocumentAnnotation when
+   it is not declared exactly like the implicitly added one (is_default_document_annotation: no description, supertype
+   uima.tcas.Annotation, one own feature `language` of range uima.cas.String without description, element type or flag);
+   these are written first, sorted; then every other user type, sorted by full name; the second loop always skips
+   DocumentAnnotation *)
+(* (= stype_of_decl default_docann; a feature called `language` never carries the reserved-name flag) *)
+Definition default_docann_st : stype :=
+  mkST DOCANN None "uima.tcas.Annotation" [mkSF "language" false None "uima.cas.String" None None].
+Definition is_default_docann (t : stype) : bool := stype_eqb t default_docann_st.
 Definition docann_extended (s : tsys) : bool :=
+  match find_st DOCANN (s_types s) with
+  | Some t => negb (is_default_docann t)
+  | None => false
+  end.
+(* the test before commit b4a91fc (kept for the regression witness): the feature names alone *)
+Definition docann_extended_names_old (s : tsys) : bool :=
   match find_st DOCANN (s_types s) with
   | Some t => negb (list_eqb String.eqb (map sf_name (st_feats t)) ["language"])
   | None => false
@@ -146,6 +175,12 @@ Definition emit_names (s : tsys) : list tname :=
   if docann_extended s && negb (memb DOCANN (s_redecl s)) then DOCANN :: s_redecl s else s_redecl s.
 Definition descr_of_ts (s : tsys) : descr :=
   flat_map (emit_redecl s) (sort_names (emit_names s))
+  ++ map emit_type (filter (fun t => negb (String.eqb (st_name t) DOCANN)) (sort_by st_name (s_types s))).
+
+Definition emit_names_names_old (s : tsys) : list tname :=
+  if docann_extended_names_old s && negb (memb DOCANN (s_redecl s)) then DOCANN :: s_redecl s else s_redecl s.
+Definition descr_of_ts_names_old (s : tsys) : descr :=
+  flat_map (emit_redecl s) (sort_names (emit_names_names_old s))
   ++ map emit_type (filter (fun t => negb (String.eqb (st_name t) DOCANN)) (sort_by st_name (s_types s))).
 
 (* the writer before commit fa385f5 (kept for the regression witness): an extended DocumentAnnotation that is not in
@@ -344,23 +379,6 @@ Definition spec_redecl (d : descr) : list tname :=
   redecl_of (trim d) (map t_name (filter (fun t => is_builtin (t_name t)) (prep d))).
 Definition state_of (order : list tname) (d : descr) : tsys := mkTS (spec_types order (prep d)) (spec_redecl d).
 
-(* ------------------------------------------------------------------ structural equality (for comparisons) *)
-Definition opt_str_eqb := opt_eqb.
-Definition fdecl_eqb (a b : fdecl) : bool :=
-  String.eqb (f_name a) (f_name b) && opt_eqb (f_descr a) (f_descr b) && String.eqb (f_range a) (f_range b)
-  && opt_eqb (f_elem a) (f_elem b) && optb_eqb (f_multi a) (f_multi b).
-Definition tdecl_eqb (a b : tdecl) : bool :=
-  String.eqb (t_name a) (t_name b) && opt_eqb (t_descr a) (t_descr b) && String.eqb (t_super a) (t_super b)
-  && list_eqb fdecl_eqb (t_feats a) (t_feats b).
-Definition sfeat_eqb (a b : sfeat) : bool :=
-  String.eqb (sf_name a) (sf_name b) && Bool.eqb (sf_res a) (sf_res b) && opt_eqb (sf_descr a) (sf_descr b)
-  && String.eqb (sf_range a) (sf_range b) && opt_eqb (sf_elem a) (sf_elem b) && optb_eqb (sf_multi a) (sf_multi b).
-Definition stype_eqb (a b : stype) : bool :=
-  String.eqb (st_name a) (st_name b) && opt_eqb (st_descr a) (st_descr b) && String.eqb (st_super a) (st_super b)
-  && list_eqb sfeat_eqb (st_feats a) (st_feats b).
-Definition tsys_eqb (a b : tsys) : bool :=
-  list_eqb stype_eqb (s_types a) (s_types b) && list_eqb String.eqb (s_redecl a) (s_redecl b).
-
 (* ------------------------------------------------------------------ boolean well-formedness (theorem premises) *)
 Definition trimmedb (s : string) : bool := String.eqb (strip s) s && negb (String.eqb s "").
 Definition opt_trimmedb (x : option string) : bool := match x with None => true | Some s => trimmedb s end.
@@ -417,11 +435,18 @@ Definition wf_sfeatb (st : list stype) (f : sfeat) : bool :=
 Definition wf_stypeb (st : list stype) (t : stype) : bool :=
   trimmedb (st_name t) && negb (is_builtin (st_name t)) && trimmedb (st_super t) && knownst st (st_super t)
   && negb (memb (st_super t) final_types) && forallb (wf_sfeatb st) (st_feats t).
-(* a DocumentAnnotation that the writer leaves out must be the one the reader puts back *)
+(* the type system has a DocumentAnnotation (the reader always adds one).  Since commit b4a91fc nothing more is asked:
+   the writer leaves it out only when it IS the one the reader puts back (DescrProofs.default_docann_eq).  Before, the
+   premise had to ask that a DocumentAnnotation with feature names ["language"] be the default one (docann_okb_names_old). *)
 Definition docann_okb (s : tsys) : bool :=
   match find_st DOCANN (s_types s) with
   | None => false                                              (* TypeSystem() always has one *)
-  | Some t => if negb (docann_extended s) && negb (memb DOCANN (s_redecl s))
+  | Some _ => true
+  end.
+Definition docann_okb_names_old (s : tsys) : bool :=
+  match find_st DOCANN (s_types s) with
+  | None => false
+  | Some t => if negb (docann_extended_names_old s) && negb (memb DOCANN (s_redecl s))
               then stype_eqb (norm_type t) (stype_of_decl default_docann) else true
   end.
 Definition wf_tsb (s : tsys) : bool :=
